@@ -1,8 +1,151 @@
-import DendroModel.Basic.Tree
-open DendroModel
+import DendroModel.Model.C09
+open DendroModel DendroModel.C09
+
+/-- string field -> characters (`-` none is treated as empty) -/
+def dec (s : String) : Option Str :=
+  match decodeStr s with
+  | some (some x) => some x.toList
+  | some none => some []
+  | none => none
+
+def enc (s : Str) : String := encodeStr (some (String.ofList s))
+
+/-- data type field: a fixed name, or `std:<hex symbols>` (gap `-`, missing `?`, case-insensitive) -/
+def alphabetOf (dt : String) : Option (Str × Alphabets.Spec) :=
+  if dt.startsWith "std:" then
+    (dec (dt.drop 4).toString).map (fun s => ("standard".toList, specStd s (some '-') (some '?')))
+  else (specOfName dt.toList).map (fun s => (dt.toList, s))
+
+def parseCell (s : String) : Option Cell :=
+  match s.toList with
+  | 'S' :: h => match unhex6 h with
+    | some [c] => some (.sym c)
+    | _ => none
+  | 'P' :: h => (if h == ['='] then some [] else unhex6 h).map (Cell.multi true)
+  | 'A' :: h => (if h == ['='] then some [] else unhex6 h).map (Cell.multi false)
+  | _ => none
+
+def parseCells (s : String) : Option (List Cell) :=
+  if s == "-" then some [] else (s.splitOn ",").mapM parseCell
+
+/-- `hexlabel:payload` -/
+def parsePair (s : String) : Option (Str × String) :=
+  match s.splitOn ":" with
+  | [a, b] => (dec a).map (fun l => (l, b))
+  | _ => none
+
+def parseRowsText (ws : List String) : Option (List (Str × Str)) :=
+  ws.mapM (fun w => (parsePair w).bind (fun p => (dec p.2).map (fun t => (p.1, t))))
+
+def showRows (rows : List (Str × Str)) : String :=
+  " ".intercalate (rows.map (fun r => enc r.1 ++ ":" ++ enc r.2))
+
+def showMatrix (m : Matrix) : String := showRows (m.map (fun r => (r.1, renderCells r.2)))
+
+def flag (s : String) : Bool := s == "1"
 
 def handle (ws : List String) : String :=
   match ws with
+  | ["sym", dt, h] =>
+    match alphabetOf dt, dec h with
+    | some (_, sp), some [c] => match lookup (mkStates sp) c with
+      | some s => enc [s]
+      | none => "KeyError"
+    | _, _ => "bad-op"
+  | ["match", dt, k, h] =>
+    match alphabetOf dt, dec h with
+    | some (_, sp), some ms => match resolveMulti (mkStates sp) (k == "p") ms with
+      | some c => enc (renderCell c)
+      | none => "KeyError"
+    | _, _ => "bad-op"
+  | ["fmt", dt] =>
+    match alphabetOf dt with
+    | some (n, sp) => enc (formatOf (if dt.startsWith "std:" then "standard".toList else n) sp)
+    | none => "bad-op"
+  | "nxwrite" :: dt :: simple :: rows =>
+    match alphabetOf dt, rows.mapM (fun w => (parsePair w).bind (fun p => (parseCells p.2).map (fun c => (p.1, c)))) with
+    | some (n, sp), some m =>
+      let nm := if dt.startsWith "std:" then "standard".toList else n
+      " ".intercalate (enc (dimensionsOf (flag simple) m.length (maxLen (m.map (·.2)))) :: enc (formatOf nm sp)
+        :: (nxRows m).map (fun r => enc r.2))
+    | _, _ => "bad-op"
+  | "nxread" :: fmt :: nchar :: ntax :: k :: rest =>
+    match dec fmt, nchar.toNat?, ntax.toNat?, k.toNat? with
+    | some fmt, some nchar, some ntax, some k =>
+      match (rest.take k).mapM dec, parseRowsText (rest.drop k) with
+      | some taxa, some rows =>
+        match parseFormatText fmt with
+        | none => "err format"
+        | some f =>
+          match alphabetOfFmt f with
+          | none => "err format"
+          | some al =>
+            match nxRead ⟨al, f.matchChars, nchar, ntax, f.interleave⟩ taxa rows with
+            | .error _ => "err read"
+            | .ok m => "ok " ++ String.ofList f.dataType ++ " " ++ showMatrix m
+      | _, _ => "bad-op"
+    | _, _, _, _ => "bad-op"
+  | "phwrite" :: strict :: su :: rows =>
+    match parseRowsText rows with
+    | some rows => " ".intercalate ((phWrite (flag strict) (flag su) rows).map enc)
+    | none => "bad-op"
+  | "phread" :: dt :: strict :: inter :: multi :: us :: lines =>
+    match alphabetOf dt, lines.mapM dec with
+    | some (_, sp), some lines =>
+      match phRead ⟨mkStates sp, flag strict, flag inter, flag multi, flag us⟩ lines with
+      | .error _ => "err"
+      | .ok rows => "ok " ++ showRows rows
+    | _, _ => "bad-op"
+  | "fawrite" :: rows =>
+    match parseRowsText rows with
+    | some rows => enc (faWrite rows)
+    | none => "bad-op"
+  | ["faread", dt, text] =>
+    match alphabetOf dt, dec text with
+    | some (_, sp), some t =>
+      match faRead (mkStates sp) [] none (splitLines t) with
+      | .error _ => "err"
+      | .ok rows => "ok " ++ showRows rows
+    | _, _ => "bad-op"
+  | "nexmlread" :: chars :: rows =>
+    let parseIds := fun (s : String) => if s == "-" then some [] else (s.splitOn ",").mapM String.toNat?
+    let parseRow := fun (s : String) =>
+      if s == "-" then some [] else (s.splitOn ",").mapM (fun c => match c.splitOn "." with
+        | [a, b] => match a.toNat?, b.toNat? with
+          | some a, some b => some (a, b)
+          | _, _ => none
+        | _ => none)
+    match parseIds chars, rows.mapM parseRow with
+    | some chars, some rows =>
+      " ".intercalate (rows.map (fun r =>
+        let v := nexmlReadRow chars r
+        if v.isEmpty then "-" else ",".intercalate (v.map (fun x => match x with
+          | some n => toString n
+          | none => "_"))))
+    | _, _ => "bad-op"
+  | ["nexmlwrite", lens] =>
+    match (if lens == "-" then some [] else (lens.splitOn ",").mapM String.toNat?) with
+    | some lens =>
+      let ids := fun (l : List Nat) => if l.isEmpty then "-" else ",".intercalate (l.map toString)
+      " ".intercalate (ids (nexmlChars id lens) :: lens.map (fun n => ids ((nexmlWriteRow id (List.replicate n ())).map (·.1))))
+    | none => "bad-op"
+  | "links" :: sbt :: n :: rest =>
+    match n.toNat? with
+    | some n =>
+      let sup := if sbt == "N" then some none else if sbt == "T" then some (some true)
+                 else if sbt == "F" then some (some false) else none
+      match sup, (rest.take n).mapM dec, (rest.drop n).mapM String.toNat? with
+      | some sup, some labels, some blocks =>
+        if blocks.any (· ≥ n) then "bad-op" else
+        let w := writeLinks sup labels blocks
+        let o := fun (x : Option Str) => match x with
+          | some s => enc s
+          | none => "-"
+        " ".intercalate (w.1.map o ++ ["|"] ++ w.2.map o ++ ["|"] ++ (readLinks w).map (fun r => match r with
+          | .ok i => toString i
+          | .error _ => "err"))
+      | _, _, _ => "bad-op"
+    | none => "bad-op"
   | _ => "bad-op"
 
 def main : IO Unit := do driverLoop (← IO.getStdin) handle
